@@ -636,13 +636,16 @@ func c08Coverage(c *Ctx, ct *Cont, name string) {
 			}
 			if !installed {
 				// not the plain shape: decide copy() on the spine model
+				folded := ""
 				if len(paths) == 1 {
-					if bad, undec := c.foldBuild(v, paths[0], nil, nil, ct.IsList, ct.IsList, wantCopy); bad == "" && undec == "" {
+					bad, undec := c.foldBuild(v, paths[0], nil, nil, ct.IsList, ct.IsList, wantCopy)
+					if bad == "" && undec == "" {
 						ob.Ok("folded on the spine model for 0..3 elements: the returned container holds parseVal(copy()) of every element under its own key / in order")
 						return
 					}
+					folded = "; folded on the spine model: " + bad + undec
 				}
-				ob.Fail("an iteration of the copy loop does not install copy() of the visited element under its own key into the result")
+				ob.Fail("an iteration of the copy loop does not install copy() of the visited element under its own key into the result%s", folded)
 				return
 			}
 		}
@@ -651,29 +654,34 @@ func c08Coverage(c *Ctx, ct *Cont, name string) {
 }
 
 func c08R3(c *Ctx) {
-	a := c.E3()
-	fn := a.ByName("parseVal")
-	if fn == nil {
+	fd := c.Decl("parseVal")
+	if fd == nil {
 		c.Ob("C08.R3", "parseVal", token.NoPos).Missing("parseVal not found")
 		return
 	}
-	s := a.sum[fn]
+	arms, why := parseValArms(c)
+	if why != "" {
+		c.Ob("C08.R3", "parseVal", fd.Pos()).Undecided("%s", why)
+		return
+	}
 	nParam, nFresh := 0, 0
-	for i, o := range s.RetEach {
-		ob := c.Ob("C08.R3", "parseVal#ret"+itoa(i+1), s.RetPos[i])
-		switch o & oROOTS {
-		case oP1:
+	for _, arm := range arms {
+		ob := c.Ob("C08.R3", "parseVal/case "+arm.Name, arm.Pos)
+		switch {
+		case arm.Container && arm.Operand:
 			nParam++
 			ob.Ok("returns its operand (a container stays that container: a fresh copy stays that copy)")
-		case oFRESH:
+		case arm.Container:
+			ob.Fail("a container operand is not handed back as it is: the copy made by copy() would be wrapped or re-built")
+		case arm.Fresh:
 			nFresh++
 			ob.Ok("allocates a new field")
 		default:
-			ob.Fail("parseVal return has origin %s (neither the operand itself nor a fresh allocation)", o)
+			ob.Fail("the %s arm of parseVal returns neither a fresh allocation nor (for a container) the operand itself", arm.Name)
 		}
 	}
 	c.R.Floor("C08.R3", nParam+nFresh, 3)
-	c.Ob("C08.R3", "parseVal/operand-arms", fn.Pos()).Check(nParam >= 1, itoa(nParam)+" return(s) hand back the operand (which arms: C12.R1)", "no pass-through arm: a container operand would be wrapped or re-built")
+	c.Ob("C08.R3", "parseVal/operand-arms", fd.Pos()).Check(nParam >= 1, itoa(nParam)+" arm(s) hand back the operand (which arms: C12.R1)", "no pass-through arm: a container operand would be wrapped or re-built")
 }
 
 func c08R4(c *Ctx) {
